@@ -135,14 +135,44 @@ func (Segment).Migrate
     loop 1
       invariant[sync] wrOK(migratedLog)
 
+// fixed bytes a record occupies besides key and value
+pred hdrSize(v message.Version) := ite(v == message.V1, 28, ite(v == message.V2, 36, 0))
+
 func (Segment).Rewrite
-    flags noframe only_sync
+    flags noframe only_sync only_del
+    // C12 accounting, over the records of the source file f as it is on entry and the requested set
+    requires[del_ok] wfLog(fsContent[src.Log])
     assigns fPath, fsDirty, fsExists, fsContent, dirDirty, index.Writer.pos, RewriteSegment.DeletedMessages, RewriteSegment.DeletedSize, RewriteSegment.Stats, RewriteSegment.Segment
     // both rewritten files are durable before the caller may rename them into place
     ensures[sync_clean] err == nil ==> ret0 != nil && !fsDirty[ret0.Log] && !fsDirty[ret0.Index]
     ensures[sync_handles] forall g *os.File :: !fresh(g) ==> fPath[g] == old(fPath[g])
+    // reported = requested AND present, in file order; size = what those records occupy (log record + index item)
+    ensures[del_count]     err == nil ==> len(ret0.DeletedMessages) == delCount(old(fsContent)[src.Log], recN(old(fsContent)[src.Log]), domain(dropOffsets))
+    ensures[del_requested] err == nil ==> forall j :: 0 <= j && j < len(ret0.DeletedMessages) ==> has(dropOffsets, ret0.DeletedMessages[j].Offset)
+    ensures[del_offsets]   err == nil ==> forall j :: 0 <= j && j < len(ret0.DeletedMessages) ==>
+                               ret0.DeletedMessages[j].Offset == recOffset(old(fsContent)[src.Log], delIdx(old(fsContent)[src.Log], domain(dropOffsets), j))
+    ensures[del_size]      err == nil ==> ret0.DeletedSize == delSum(old(fsContent)[src.Log], recN(old(fsContent)[src.Log]), domain(dropOffsets), hdrSize(verOf(old(fsContent)[src.Log])), params.Size())
+    // survivors = present AND NOT requested
+    ensures[del_survive]   err == nil ==> (forall o int64 :: has(ret0.SurviveOffsets, o) ==> !has(dropOffsets, o))
+                               && (forall i :: 0 <= i && i < recN(old(fsContent)[src.Log]) && !has(dropOffsets, recOffset(old(fsContent)[src.Log], i))
+                                       ==> has(ret0.SurviveOffsets, recOffset(old(fsContent)[src.Log], i)))
+    // the new base is the lowest surviving offset
+    ensures[del_base]      err == nil && len(ret0.SurviveOffsets) > 0 ==> has(ret0.SurviveOffsets, ret0.Offset) && (forall o int64 :: has(ret0.SurviveOffsets, o) ==> ret0.Offset <= o)
+    // proof hint: the record just read has the key and value lengths of its record
+    assert[del_hint] len(msg.Key) == len(recKey(srcLog.gfile, recIdx(srcLog.gfile, srcPosition))) && len(msg.Value) == len(recValue(srcLog.gfile, recIdx(srcLog.gfile, srcPosition)))
+                     && msg.Offset == recOffset(srcLog.gfile, recIdx(srcLog.gfile, srcPosition)) at call message.Size 1
     loop 1
       invariant[sync] wrOK(dstLog) && dstLog.Path == dst.Log && (forall g *os.File :: !fresh(g) ==> fPath[g] == old(fPath[g]))
+      invariant[del_file]      srcLog != nil && srcLog.gfile == old(fsContent)[src.Log] && srcVersion == srcLog.v && srcVersion == verOf(srcLog.gfile) && dst != nil && fresh(dst) && dst.SurviveOffsets != nil
+      invariant[del_pos]       atIdx(srcLog.gfile, srcPosition)
+      invariant[del_count]     len(dst.DeletedMessages) == delCount(srcLog.gfile, recIdx(srcLog.gfile, srcPosition), domain(dropOffsets))
+      invariant[del_requested] forall j :: 0 <= j && j < len(dst.DeletedMessages) ==> has(dropOffsets, dst.DeletedMessages[j].Offset)
+      invariant[del_offsets]   forall j :: 0 <= j && j < len(dst.DeletedMessages) ==>
+                                   dst.DeletedMessages[j].Offset == recOffset(srcLog.gfile, delIdx(srcLog.gfile, domain(dropOffsets), j))
+      invariant[del_size]      dst.DeletedSize == delSum(srcLog.gfile, recIdx(srcLog.gfile, srcPosition), domain(dropOffsets), hdrSize(srcVersion), params.Size())
+      invariant[del_survive]   (forall o int64 :: has(dst.SurviveOffsets, o) ==> !has(dropOffsets, o))
+                                   && (forall i :: 0 <= i && i < recIdx(srcLog.gfile, srcPosition) && !has(dropOffsets, recOffset(srcLog.gfile, i))
+                                           ==> has(dst.SurviveOffsets, recOffset(srcLog.gfile, i)))
 
 func (Segment).ReindexReader
     flags noframe only_sync
